@@ -440,6 +440,18 @@ Proof.
   cbn. repeat (constructor; [cbn; intros Q; repeat (destruct Q as [Q|Q]; [discriminate Q|]); exact Q|]). constructor.
 Qed.
 
+(** Non-vacuity of the merging variant: in the strip above, (pe, e, ne) = (2, 1, 3) is a mirrored call -- 1 -> 2 -> 3 -> 1,
+    the edge dart 1 is 2-free -- whose third-slot dart 3 is glued to q = 7 in the face 9 -> 7 -> 8. *)
+Example C15_right_halfcell_merge_premises :
+  let f := c15_strip in let q := f 2 3 in let p0 := f 0 q in let p1 := f 1 q in
+  NoDup [2; 1; 3; q; p0; p1] /\ ~ In 0 [2; 1; 3; q; p0; p1] /\
+  f 1 1 = 2 /\ f 1 2 = 3 /\ f 1 3 = 1 /\ f 1 p0 = q /\ f 2 1 = 0.
+Proof.
+  cbv zeta. repeat split; try discriminate; try reflexivity.
+  - cbn. repeat (constructor; [cbn; intros Q; repeat (destruct Q as [Q|Q]; [discriminate Q|]); exact Q|]). constructor.
+  - cbn. intros Q; repeat (destruct Q as [Q|Q]; [discriminate Q|]); exact Q.
+Qed.
+
 (** The two half-cell routines of the edge collapse -- the programs the four collapse theorems above are about -- are,
     verbatim, what tools/tr_kern.py regenerates from remeshing/collapse.rs on every run: an edit of either routine
     changes Map2/GenKern.v and this theorem stops compiling. *)
